@@ -274,6 +274,7 @@ func init() {
 		"internal/race.Write":        extNop,
 		"math/bits.Len64":            nil,
 		"os.Getenv":                  func(fr *frame, args []value) value { return fr.i.getenv(args[0]) },
+		"errors.Is":                  errorsIs,
 		"os.LookupEnv":               func(fr *frame, args []value) value { v := fr.i.getenv(args[0]); return tuple{v, strLen(v) > 0} },
 		"syscall.Getenv":             func(fr *frame, args []value) value { v := fr.i.getenv(args[0]); return tuple{v, strLen(v) > 0} },
 		"(*os.File).Write":       func(fr *frame, args []value) value { return tuple{len(args[1].([]value)), iface{}} },
@@ -310,7 +311,6 @@ func init() {
 		"(*strings.Builder).copyCheck": extNop,
 		"strings.Clone":              func(fr *frame, args []value) value { return args[0] },
 		"internal/stringslite.Clone": func(fr *frame, args []value) value { return args[0] },
-		"errors.Is":                  nil,
 		"reflect.TypeFor": func(fr *frame, args []value) value {
 			return makeReflectType(rtype{fr.fn.TypeArgs()[0]})
 		},
@@ -1239,4 +1239,34 @@ func setUnexportedField(fr *frame, args []value) value {
 		return nil
 	}
 	panic(engineBug("setUnexportedField: not a pointer to struct"))
+}
+
+// errorsIs implements errors.Is for the comparable sentinel errors used with
+// the file-system model (errors.init is not run, so the real one cannot be).
+func errorsIs(fr *frame, args []value) value {
+	err, target := args[0].(iface), args[1].(iface)
+	for depth := 0; depth < 8 && err.t != nil; depth++ {
+		if sameType(err.t, target.t) {
+			if p, ok := err.v.(*value); ok {
+				if q, ok := target.v.(*value); ok && p == q {
+					return true
+				}
+			}
+		}
+		// Unwrap() error
+		sel := fr.i.prog.MethodSets.MethodSet(err.t).Lookup(nil, "Unwrap")
+		if sel == nil {
+			return false
+		}
+		m := fr.i.prog.MethodValue(sel)
+		if m == nil || m.Signature.Results().Len() != 1 {
+			return false
+		}
+		next, ok := call(fr.i, fr, token.NoPos, m, []value{err.v}).(iface)
+		if !ok {
+			return false
+		}
+		err = next
+	}
+	return false
 }
